@@ -46,6 +46,9 @@ use flume::{bounded, Sender, TrySendError};
 use if_addrs::{IfAddr, Interface};
 use mio::{event::Source, net::UdpSocket as MioUdpSocket, Interest, Poll, Registry, Token};
 use socket2::Domain;
+#[cfg(feature = "verif-hooks")]
+use crate::verif_hooks::SimPktInfoUdpSocket as PktInfoUdpSocket;
+#[cfg(not(feature = "verif-hooks"))]
 use socket_pktinfo::PktInfoUdpSocket;
 use std::{
     cmp::{self, Reverse},
@@ -747,6 +750,8 @@ impl ServiceDaemon {
         cmd_sender: Sender<Command>,
         signal_addr: SocketAddr,
     ) {
+        #[cfg(feature = "verif-hooks")]
+        let _sim_guard = crate::verif_hooks::sim_attach(port);
         let mut zc = Zeroconf::new(signal_sock, poller, port, cmd_sender, signal_addr);
 
         if let Some(cmd) = zc.run(receiver) {
@@ -1435,6 +1440,18 @@ impl Zeroconf {
                 let millis = if timer > now { timer - now } else { 1 };
                 Duration::from_millis(millis)
             });
+
+            // Verification hook: in the simulated world, wait at the gate instead of in
+            // `poll`, then read the injected datagrams; the real poll below returns at once.
+            #[cfg(feature = "verif-hooks")]
+            let timeout = if crate::verif_hooks::sim_active() {
+                crate::verif_hooks::sim_gate(earliest_timer, now);
+                while self.handle_read(IPV4_SOCK_EVENT_KEY) {}
+                while self.handle_read(IPV6_SOCK_EVENT_KEY) {}
+                Some(Duration::from_millis(0))
+            } else {
+                timeout
+            };
 
             // Process incoming packets, command events and optional timeout.
             events.clear();
@@ -3031,6 +3048,8 @@ impl Zeroconf {
 
             // Probing again with the new names.
             let create_time = current_time_millis() + fastrand::u64(0..250);
+            #[cfg(feature = "verif-hooks")]
+            crate::verif_hooks::sim_note_jitter(create_time, current_time_millis());
 
             let waiting_services = probe.waiting_services.clone();
 
@@ -4286,6 +4305,10 @@ fn my_ip_interfaces(with_loopback: bool) -> Vec<Interface> {
 }
 
 fn my_ip_interfaces_inner(with_loopback: bool, with_apple_p2p: bool) -> Vec<Interface> {
+    #[cfg(feature = "verif-hooks")]
+    if let Some(v) = crate::verif_hooks::sim_interfaces(with_loopback, with_apple_p2p) {
+        return v;
+    }
     if_addrs::get_if_addrs()
         .unwrap_or_default()
         .into_iter()
@@ -4543,6 +4566,8 @@ fn prepare_announce(
     let mut probing_count = 0;
     let mut out = DnsOutgoing::new(FLAGS_QR_RESPONSE | FLAGS_AA);
     let create_time = current_time_millis() + fastrand::u64(0..250);
+    #[cfg(feature = "verif-hooks")]
+    crate::verif_hooks::sim_note_jitter(create_time, current_time_millis());
 
     out.add_answer_at_time(
         DnsPointer::new(
